@@ -299,6 +299,77 @@ def dn(x):
                 o._memoize_cache.update(d)
 
 
+def diag_part(op):
+    """dense diagonal part D of an AddedDiag-like operator (None for other classes)"""
+    d = getattr(op, "_diag_tensor", None)
+    if isinstance(d, LO().LinearOperator):
+        try:
+            return dn(d)
+        except Exception:
+            return None
+    return None
+
+
+ADHOC_POS = 999     # position reported for the out-of-dict preconditioner cache (_q_cache & co) of an object
+
+
+def adhoc_precond(op):
+    """what op._preconditioner() returns from its out-of-dict cache (_q_cache, _r_cache, _noise, _constant_diag,
+    _precond_lt, _precond_logdet_cache), read under settings that make the method take the cached branch;
+    None when the object has no such cache"""
+    if getattr(op, "_q_cache", None) is None or getattr(op, "preconditioner_override", None) is not None:
+        return None
+    from linear_operator import settings as S
+    with S.min_preconditioning_size(1), S.max_preconditioner_size(max(1, int(S.max_preconditioner_size.value()))):
+        return op._preconditioner()
+
+
+# every per-object cache the check knows about: the memoize dict, the AddedDiag preconditioner cache, the sparse
+# interpolation memos.  (_default_preconditioner_cache is written by _solve_preconditioner, which the library only ever
+# calls on a rebuilt copy - linear_op.detach() inside functions/_solve.py, _inv_quad.py - so it never appears on an
+# object a caller holds.)  Any OTHER instance attribute that looks like a cache is state this check does not model.
+KNOWN_CACHE_ATTRS = {"_memoize_cache", "_q_cache", "_r_cache", "_precond_logdet_cache", "_q_cache_max_iter",
+                     "_sparse_left_interp_t_memo", "_left_interp_indices_memo", "_left_interp_values_memo",
+                     "_sparse_right_interp_t_memo", "_right_interp_indices_memo", "_right_interp_values_memo",
+                     # not caches: the constructor arguments (LinearOperator._args property) ...
+                     "_args_memo",
+                     # ... and a dead memo: BatchRepeatLinearOperator._move_repeat_batches_to_columns writes
+                     # self.__batch_move_memo (name-mangled), the only reader tests hasattr(self, "_batch_move_memo")
+                     # (un-mangled) and therefore never takes the memo branch
+                     "_BatchRepeatLinearOperator__batch_move_memo"}
+
+
+def unknown_cache_attrs(op):
+    try:
+        names = list(vars(op))
+    except TypeError:
+        return []
+    return sorted(a for a in names if ("cache" in a or "memo" in a) and a not in KNOWN_CACHE_ATTRS)
+
+
+INTERP_POS = 998     # position reported for the sparse interpolation memos of an InterpolatedLinearOperator
+UNKNOWN_POS = 997    # position reported for a cache-like instance attribute this check does not know
+
+
+def interp_memo_ok(op):
+    """the sparse interpolation memos of an InterpolatedLinearOperator belong to THIS object's interpolation tensors
+    and are what the sparse constructor builds from them"""
+    from linear_operator.utils import sparse
+    for side in ("left", "right"):
+        memo = getattr(op, "_sparse_%s_interp_t_memo" % side, None)
+        if memo is None:
+            continue
+        idx, val = getattr(op, "%s_interp_indices" % side), getattr(op, "%s_interp_values" % side)
+        if not (torch.equal(getattr(op, "_%s_interp_indices_memo" % side), idx)
+                and torch.equal(getattr(op, "_%s_interp_values_memo" % side), val)):
+            return False, "%s interpolation memo was built from other index / value tensors" % side
+        n = op.base_linear_op.size(-1 if side == "right" else -2)
+        ref = sparse.make_sparse_from_indices_and_values(idx, val, n)
+        if not torch.equal(memo.to_dense(), ref.to_dense()):
+            return False, "%s interpolation memo differs from the sparse matrix of the object's interpolation tensors" % side
+    return True, ""
+
+
 def tri_honest(op):
     """a TriangularLinearOperator whose dense content really is triangular with the orientation it claims"""
     T = LO().TriangularLinearOperator
@@ -381,7 +452,23 @@ def valid(aspect, A, ans, tol, ctx=None):
             Pd = dn(P)
             x = ctx["rhs"]
             ok = close(Pd @ f(x), x, max(tol, 1e-7) * max(1.0, float(Pd.abs().max())))
-            return ok and close(ld, torch.logdet(Pd), max(tol, 1e-7)), "P closure / logdet"
+            if not (ok and close(ld, torch.logdet(Pd), max(tol, 1e-7))):
+                return False, "P closure / logdet"
+            D = ctx.get("diag")
+            if D is not None:
+                # the preconditioner of THIS operator: P = L L^T + D with D this operator's diagonal part and
+                # L L^T a pivoted-Cholesky under-approximation of K = A - D   (0 <= L L^T <= K)
+                sc = tol * max(1.0, float(A.abs().max()))
+                e1 = torch.linalg.eigvalsh(sym(Pd - D))
+                e2 = torch.linalg.eigvalsh(sym(A - Pd))
+                if float(e1.min()) < -sc:
+                    return False, "P - D is not positive semi-definite: not a preconditioner of this operator's diagonal"
+                if float(e2.min()) < -sc:
+                    return False, "A - P is not positive semi-definite: not a pivoted-Cholesky preconditioner of this matrix"
+                # k pivots leave a residual of rank <= n - k
+                if int(((e1 > sc).sum(-1) + (e2 > sc).sum(-1)).max()) > A.shape[-1]:
+                    return False, "rank(P - D) + rank(A - P) > n: not a pivoted-Cholesky preconditioner of this matrix"
+            return True, "P closure / logdet / ownership"
         if k == "sample":
             Z = ctx["noise"]          # (*batch, kdim, num_samples) as the library draws it
             S = ans                   # (num_samples, *batch, n)
@@ -505,6 +592,34 @@ class World:
                     self._keep.append(v)        # keep the value alive: id() must stay unique
                 if not hit[0]:
                     bad.append((i, pos, hit[1]))
+            # the out-of-dict preconditioner cache is part of the object's cached state as well
+            qc = getattr(op, "_q_cache", None)
+            if qc is not None:
+                memo_key = (i, "adhoc", id(qc), id(getattr(op, "_precond_lt", None)))
+                hit = self._entry_memo.get(memo_key)
+                if hit is None:
+                    try:
+                        ans = adhoc_precond(op)
+                        n = int(op.shape[-1])
+                        hit = (True, "") if ans is None else valid(
+                            ("precond",), self.dense[i], ans, tol,
+                            {"rhs": arg_tensor("rhs", 0, n, self.batch(i)), "diag": diag_part(op)})
+                    except Exception as ex:
+                        hit = (False, "cached preconditioner unusable: %s: %s" % (type(ex).__name__, str(ex)[:80]))
+                    self._entry_memo[memo_key] = hit
+                    self._keep.append(qc)
+                if not hit[0]:
+                    bad.append((i, ADHOC_POS, "preconditioner cache: " + hit[1]))
+            if hasattr(op, "_sparse_left_interp_t_memo") or hasattr(op, "_sparse_right_interp_t_memo"):
+                try:
+                    ok, why = interp_memo_ok(op)
+                except Exception as ex:
+                    ok, why = False, "interpolation memo unusable: %s" % type(ex).__name__
+                if not ok:
+                    bad.append((i, INTERP_POS, why))
+            unk = unknown_cache_attrs(op)
+            if unk:
+                bad.append((i, UNKNOWN_POS, "unmodelled per-object cache attribute(s): %s" % ", ".join(unk)))
         return bad
 
     def entry_tol(self, k, tol):
@@ -549,6 +664,7 @@ class World:
                 r = op.diagonal()
             elif kind == "precond":
                 ctx["rhs"] = arg_tensor("rhs", 0, n, self.batch(i))
+                ctx["diag"] = diag_part(op)
                 r = op._preconditioner()
             elif kind == "sample":
                 # the base samples are read back: torch.randn is wrapped in THIS process for the duration of the call
@@ -652,6 +768,14 @@ class World:
             r = self.O.to_linear_operator(r)
         j = self.register(r, self.derive_dense(i, d))
         return False, j, list(self.last_new)
+
+    def note_precond_state(self, cur):
+        """remember under which settings each object's out-of-dict preconditioner cache came into being (the cache
+        is part of the object's state; a stochastic answer is compared with a fresh object in the SAME state)"""
+        env = self.__dict__.setdefault("precond_env", {})
+        for i, op in enumerate(self.objs):
+            if i not in env and getattr(op, "_q_cache", None) is not None:
+                env[i] = dict(cur)
 
     def seed_symeig(self, i):
         from linear_operator.utils.memoize import add_to_cache
